@@ -247,4 +247,13 @@ def parseExcludeFile (data : List Char) : Res (List (Nat × Nat)) :=
   | .ok v => if tooLong then .err else .ok v
   | r => r
 
+/-- a file whose reading FAILS part-way (a `Read` error other than EOF: I/O error, a directory opened as
+    a file, …): `bufio.Scanner` stops, the lines delivered so far are parsed, and `scanner.Err()` — which
+    both parsers consult after their loop — turns the result into an error.  `p` is the parser on what
+    was delivered. -/
+def withReadFault {α} (p : List Char → Res α) (delivered : List Char) : Res α :=
+  match p delivered with
+  | .panic => .panic
+  | _ => .err
+
 end SxVerif.Parse
